@@ -507,7 +507,7 @@ def binding(ctx):
                         ck = pr[0] == 'closure' and pr[1] in P.fns and any(is_call(y['expr'], 'contains_key') for y in P.fns[pr[1]].exits())
                     ok2 = root_first and mods and jn and ck and not any(c_[3].endswith('Iterator::rev') for c_ in calls_in(ce))
         ok = ok1 and ok2
-    ctx.ob(['C11'], 'R-EXPR', 'C11-D3|candidate-order', ok,
+    ctx.ob(['C11', 'C19'], 'R-EXPR', 'C11-D3|candidate-order', ok,
            'candidates are tried as: imported types whose last segment is the name, last import first; else root::name (built-ins); else <module>::name for the scope modules in scope order; first hit wins: %s' % det, loc(rs.span))
     sc = [f for f in P.fns.values() if f.id.endswith('module::Module::scope')]
     oks = False
@@ -545,6 +545,42 @@ def confinement(ctx):
     envs_bad = [e for e in envs if not e[0].endswith('build_script')]
     ctx.ob(['C09', 'C19'], 'R-STATE', 'ambient-inputs', not envs_bad,
            'environment, clock, process and explicit RandomState are read only in build_script (cargo glue), never on the build path: %s' % sorted(set(envs)))
+    # no interior-mutable state in any crate type (a memo/cache inside the registry or a module would make one module's
+    # bindings depend on what was resolved before)
+    badf = []
+    nfields = 0
+    for a in P.adts.values():
+        for v in a['variants']:
+            for fl in v['fields']:
+                nfields += 1
+                if re.search(r'Cell<|Mutex<|RwLock<|Atomic\w+|OnceLock<|OnceCell<|LazyLock<|Lazy<|UnsafeCell<|Rc<|Arc<', fl['ty']):
+                    badf.append('%s.%s: %s' % (a['path'], fl['name'], fl['ty'][:60]))
+    ctx.ob(['C19', 'C09', 'C11'], 'R-STATE', 'interior-mutable-fields', not badf and nfields >= 60,
+           'no field of any crate type is interior-mutable or shared (%d fields examined): %s' % (nfields, badf[:3]))
+    # module path = relative file path, component by component, unchanged
+    fp = [f for f in P.fns.values() if f.id.endswith('grammar::ItemPath::from_path')]
+    okfp = False
+    det = ''
+    if fp:
+        f = fp[0]
+        ex = [x for x in f.exits()]
+        if len(ex) == 1:
+            e = expand(f, ex[0]['expr'])
+            det = show(e)[:200]
+            chain = [c_[3] for c_ in calls_in(e)]
+            cl = [x for x in walk(e) if isinstance(x, tuple) and x[0] == 'closure' and x[1] in P.fns]
+            okc = False
+            if len(cl) == 1:
+                cx = P.fns[cl[0][1]].exits()
+                if len(cx) == 1:
+                    inner = [c_[3] for c_ in calls_in(expand(P.fns[cl[0][1]], cx[0]['expr']))]
+                    det += ' ;; ' + show(cx[0]['expr'])[:120]
+                    okc = all(re.search(r'(to_string_lossy|AsRef::as_ref|Into::into|From::from|Deref::deref|to_str|to_string|to_owned|Option::<T>::unwrap\w*|Borrow::borrow)$', c_) for c_ in inner) and \
+                        any(c_.endswith('to_string_lossy') or c_.endswith('to_str') for c_ in inner)
+            okfp = okc and any(c_.endswith('Path::with_extension') for c_ in chain) and any(c_.endswith('Path::iter') or c_.endswith('Path::components') for c_ in chain) and \
+                not any(re.search(r'Iterator::(rev|skip|take|filter|step_by)$', c_) for c_ in chain) and ('str', '') in list(walk(e))
+    ctx.ob(['C14', 'C19', 'C11'], 'R-EXPR', 'from_path|components-unchanged', okfp,
+           'a module path is the relative file path without extension, one segment per component, each component text unchanged: %s' % det, loc(fp[0].span) if fp else '')
     # D2 keyed access only inside name resolution
     res = [f for f in P.fns.values() if re.search(r'TypeRegistry::(resolve_string|resolve_grammar_type|padding_type)', f.id)]
     bad = []
